@@ -469,9 +469,12 @@ void run(vf::Ctx &c) {
   int part = c.pick("part", 2);
   int nsamplers = kBuiltinSamplers + kFixedSamplers + (c.thorough() ? 1 : 0);
   int sampler = part == 0 ? c.pick("sampler", nsamplers) : c.pick("sampler", 2) * 2;  // random ids: AlwaysOn, ParentBased(AlwaysOn)
-  bool gen_is_random = part == 0 && (c.thorough() ? c.pick("generator-claims-random", 2) == 1 : true);
-  int depth = c.thorough() ? (part == 0 ? 6 : 5) : (part == 0 ? 4 : 4);
-  if (sampler == kBuiltinSamplers + kFixedSamplers) depth = 4;  // per-call decisions multiply every StartSpan by 6
+  // the generator claims random trace ids (kIsRandom is set before the level-1 mask) except where thorough also tries "not random"
+  bool gen_is_random = part == 0 && (c.thorough() && (sampler == 0 || sampler == 2) ? c.pick("generator-claims-random", 2) == 1 : true);
+  int depth = c.thorough() ? 5 : 4;
+  // thorough: depth 6 for ParentBased(AlwaysOn) and Harness(RECORD_ONLY, trace state), depth 4 where every StartSpan also picks the decision
+  if (c.thorough() && part == 0 && (sampler == 2 || sampler == kBuiltinSamplers + 5)) depth = 6;
+  if (sampler == kBuiltinSamplers + kFixedSamplers) depth = 4;
   Exec x(c, sampler, part == 1, gen_is_random);
   for (int d = 0; d < depth; ++d) {
     {
